@@ -474,6 +474,7 @@ func c01RunBubble(t *testing.T, ops []string, o *Out) { //nolint:gocognit,cyclop
 					return
 				}
 				st := &c01Stream{info: info, twID: id}
+				infoWas := cloneInfo(info)
 				st.writer = chain.BindLocalStream(info, interceptor.RTPWriterFunc(func(h *rtp.Header, p []byte, ba interceptor.Attributes) (int, error) {
 					if h != nil && h == env.curHdr {
 						if !c01AttrsHold(ba, env.appSnap) {
@@ -502,6 +503,9 @@ func c01RunBubble(t *testing.T, ops []string, o *Out) { //nolint:gocognit,cyclop
 					return len(p), nil
 				}))
 				locals[atoi(m["s"])] = st
+				if d := infoDiff(infoWas, info); d != "" {
+					o.P("INFO-MUTATED call=BindLocalStream ssrc=%d %s", infoWas.SSRC, d)
+				}
 			case "remote":
 				info, id, ok := c01StreamInfo(m)
 				if !ok || m["s"] == "" {
@@ -509,12 +513,14 @@ func c01RunBubble(t *testing.T, ops []string, o *Out) { //nolint:gocognit,cyclop
 					return
 				}
 				st := &c01Stream{info: info, twID: id}
-				st.reader = chain.BindRemoteStream(info, interceptor.RTPReaderFunc(func(b []byte, a interceptor.Attributes) (int, interceptor.Attributes, error) {
-					if env.readErr {
-						return env.bn, a, errBottom
-					}
-					return copy(b, env.readData), a, nil
-				}))
+				o.InfoGuard("BindRemoteStream", info, func() {
+					st.reader = chain.BindRemoteStream(info, interceptor.RTPReaderFunc(func(b []byte, a interceptor.Attributes) (int, interceptor.Attributes, error) {
+						if env.readErr {
+							return env.bn, a, errBottom
+						}
+						return copy(b, env.readData), a, nil
+					}))
+				})
 				remotes[atoi(m["s"])] = st
 			case "ul", "ur":
 				tbl := locals
@@ -527,9 +533,9 @@ func c01RunBubble(t *testing.T, ops []string, o *Out) { //nolint:gocognit,cyclop
 					return
 				}
 				if name == "ul" {
-					chain.UnbindLocalStream(st.info)
+					o.InfoGuard("UnbindLocalStream", st.info, func() { chain.UnbindLocalStream(st.info) })
 				} else {
-					chain.UnbindRemoteStream(st.info)
+					o.InfoGuard("UnbindRemoteStream", st.info, func() { chain.UnbindRemoteStream(st.info) })
 				}
 			case "w":
 				st, ok := locals[atoi(m["s"])]
@@ -748,7 +754,13 @@ func c01Gen(r *Rng, tier string, idx int) Case { //nolint:gocognit,cyclop,mainti
 	// below, equal to (a padding-only packet, e.g. a bandwidth probe) and above len(payload).  The responder's RTX
 	// packet factory rejects exactly "tail byte > len(payload)" (Model/Chain.lean, responderRejects); every other
 	// packet must reach the bottom writer unchanged, whether the stream has RTX or not.
-	classes := []string{"write", "read", "rtcp", "mixed", "faults", "malformed", "guards", "close", "empty", "order3", "rtxpad"}
+	// class `bigfec`: the FlexFEC interceptor is in the chain (batches of 1..3 packets), most local streams negotiate
+	// FEC, and most application packets are as large as packets get: 8..15 CSRCs, header extensions, and a payload
+	// chosen so that the marshalled packet has 1488..1530 bytes (around the encoder's pooled 1500-byte scratch buffer,
+	// with and without the 12 bytes of the fixed header, and around an Ethernet MTU).  Every one of them must reach
+	// the bottom writer unchanged and the write return what the bottom writer returned; the only member that rejects
+	// by size is the NACK responder (payload above 1460: `shortbuf`, as the model says).
+	classes := []string{"write", "read", "rtcp", "mixed", "faults", "malformed", "guards", "close", "empty", "order3", "rtxpad", "bigfec"}
 	cl := classes[idx%len(classes)]
 	var ops []string
 
@@ -762,7 +774,7 @@ func c01Gen(r *Rng, tier string, idx int) Case { //nolint:gocognit,cyclop,mainti
 		nReal = 3
 	case "close":
 		nReal = r.Range(0, 4)
-	case "rtxpad":
+	case "rtxpad", "bigfec":
 		nReal = r.Range(1, 6)
 	}
 	pool := append([]string(nil), c01Pool...)
@@ -785,6 +797,19 @@ func c01Gen(r *Rng, tier string, idx int) Case { //nolint:gocognit,cyclop,mainti
 		if !hasResp {
 			members[r.Intn(len(members))] = "nackresp"
 		}
+	}
+	if cl == "bigfec" {
+		at := -1
+		for i, k := range members {
+			if strings.HasPrefix(k, "fec:") {
+				at = i
+			}
+		}
+		if at < 0 {
+			at = r.Intn(len(members))
+		}
+		nm := r.Pick(1, 2, 2, 3)
+		members[at] = fmt.Sprintf("fec:%d:%d", nm, r.Range(1, min(2, nm)))
 	}
 	nMock := r.Intn(4)
 	if cl == "close" {
@@ -862,6 +887,9 @@ func c01Gen(r *Rng, tier string, idx int) Case { //nolint:gocognit,cyclop,mainti
 		if cl == "rtxpad" && kind == "local" {
 			g.nack, g.rtx = !r.Chance(1, 6), r.Chance(2, 3)
 		}
+		if cl == "bigfec" && kind == "local" {
+			g.fec = !r.Chance(1, 6)
+		}
 		g.tw = r.Range(1, 14)
 		if r.Chance(1, 3) {
 			g.tw = r.Pick(0, -1000)
@@ -878,7 +906,11 @@ func c01Gen(r *Rng, tier string, idx int) Case { //nolint:gocognit,cyclop,mainti
 		line := fmt.Sprintf("%s s=%d ssrc=%d nack=%d rtx=%d tw=%s", kind, s, g.ssrc, b01(g.nack), b01(g.rtx), tw)
 		if kind == "local" {
 			fs := fresh()
-			line += fmt.Sprintf(" fec=%d fssrc=%d fpt=%d", b01(g.fec), fs, r.Pick(49, 118, 0))
+			fpt := r.Pick(49, 118, 0)
+			if cl == "bigfec" && !r.Chance(1, 8) {
+				fpt = r.Pick(49, 118, 127)
+			}
+			line += fmt.Sprintf(" fec=%d fssrc=%d fpt=%d", b01(g.fec), fs, fpt)
 		} else {
 			line += fmt.Sprintf(" pli=%d", b01(r.Bool()))
 		}
@@ -924,6 +956,8 @@ func c01Gen(r *Rng, tier string, idx int) Case { //nolint:gocognit,cyclop,mainti
 			kind = r.Pick(5, 5, 6, 6, 7, 0, 1, 9)
 		case "rtxpad": // writes, NACKs read from the network (RTX resends of the padded packets), time
 			kind = r.Pick(0, 0, 0, 0, 0, 0, 6, 7, 9)
+		case "bigfec":
+			kind = r.Pick(0, 0, 0, 0, 0, 0, 0, 1, 7, 9)
 		}
 		switch {
 		case kind <= 0 || kind == 2 || kind == 3: // application RTP write
@@ -978,6 +1012,33 @@ func c01Gen(r *Rng, tier string, idx int) Case { //nolint:gocognit,cyclop,mainti
 					tail = r.Pick(255, 254, 0)
 				}
 				pl[n-1] = byte(tail)
+			}
+			if cl == "bigfec" && !r.Chance(1, 5) {
+				// a long header and a payload that brings the marshalled packet to the drawn size
+				if len(h.CC) < 8 {
+					h.CC = nil
+					for k := r.Range(8, 15); k > 0; k-- {
+						h.CC = append(h.CC, int(r.U64()&0xFFFFFFFF))
+					}
+				}
+				if !r.Chance(1, 4) {
+					h.P, h.Pad = false, 0
+				}
+				size := r.Pick(1500, 1501, 1502, 1504, 1508, 1511, 1512, 1513, 1499, 1490, 1524, r.Range(1488, 1530))
+				n := r.Range(1440, 1472)
+				if rh, okh := parseHdr(kvOf(h.String())); okh {
+					pad := 0
+					if h.P {
+						pad = h.Pad
+					}
+					if k := size - rh.MarshalSize() - pad; k > 0 {
+						n = k
+					}
+				}
+				pl = make([]byte, n)
+				for k := range pl {
+					pl[k] = byte(r.U64())
+				}
 			}
 			sentSeqs[g.ssrc] = append(sentSeqs[g.ssrc], uint16(h.Seq))
 			bn := r.Pick(len(pl), len(pl)+12, 0, 1500)
